@@ -1,8 +1,8 @@
 CONFIG = dict(
     bin="c08",
     drv="drv_c08",
-    lean_modules=["MahfModel.Props.C08"],
-    namespaces=["MahfModel.Props.C08"],
+    lean_modules=["MahfModel.Props.C08", "MahfModel.Props.C08Measure"],
+    namespaces=["MahfModel.Props.C08", "MahfModel.Props.C08Measure"],
     shrink_lists=[],
     shrink=False,
     level="proof",
@@ -31,7 +31,13 @@ CONFIG = dict(
           "function (sum of squares of small integers, exact) records the order in which individuals enter it (WITNESS schedule) and busy-"
           "waits a pseudo-random moment; K: sequential result = model evalSeq, parallel result = model evalPar ALONG THE WITNESS, both "
           "witnesses legal (sorted = the index range, i.e. every individual is handed to the objective function exactly once), extras = "
-          "popEvaluate. PROPERTY PREDICATE (O) of these cases: evaluate-* — EVERY objective value and the extras after the parallel call "
+          "popEvaluate; measure-<Measure> — `(measure M n d seed)`: the four diversity measures of src/components/diversity.rs (DimensionWise, "
+          "PairwiseDistance, True, DistanceToAveragePoint) on n = 2..600 prepared solutions of d = 1..12 coordinates (sevenths: full mantissas, so that "
+          "another association of a sum rounds differently), through the public `DiversityMeasure::measure` AND as a component run by "
+          "`Configuration::run` on a hand-built state (value read from `Diversity<M>`), each called from the main thread and inside rayon pools "
+          "of 1,2,3,4,7,8,16 threads; K: the plain call's value = the model's left folds on Float (relative 1e-9). "
+          "PROPERTY PREDICATE (O) of these cases: measure-* — the value (bits) is the same from the main thread and inside every pool, for the "
+          "direct call and for the component (class thread-dependent); evaluate-* — EVERY objective value and the extras after the parallel call "
           "equal those after the sequential call (code against code; classes unevaluated / wrong-value / count / panic); stream — the "
           "two independently constructed walks agree (determinism at any depth); seedmap — no two DIFFERENT seeds s != e with identical "
           "streams (class seed-collision, the pair is in the replay); children — deriving twice gives the same children and parent "
@@ -45,7 +51,15 @@ CONFIG = dict(
           "real_ls, permutation_ls, real_iwo, ant_system with the population / offspring / neighbourhood / ant count set to 255..1600 (sizes "
           "around powers of two, primes, random; thorough: every 10th case 2049..4200), 1-2 iterations: the same set of runs (sequential, again, clone, hand-built, Parallel under "
           "pools of 1,2,3,4,7,8,16 threads with jitter, 4 threads again); gen — generated GA-like configurations with 2-8 and with 257-1300 "
-          "individuals; reuse — ONE configuration "
+          "individuals; run-* / big-* / gen additionally run the SEQUENTIAL evaluator inside pools of 2, 3, 8 threads (a component that uses the "
+          "ambient pool on its own is independent of the evaluator); mrun — generated configurations in which measured values are published and "
+          "steer the search: RandomSpread(8..96) + loop(3..30 passes){ a non-empty subset of the four diversity measures; mapping::Linear or "
+          "mapping::Polynomial from NormalizedDiversityLens<M> of one of them onto MutationStrength<NormalMutation> (every 5th case: no feedback); "
+          "NormalMutation; Saturation; evaluate; update best; StepsWithoutImprovementUpdate; Logger } with the log holding every measure's "
+          "normalised value, StepsWithoutImprovement and the mutation strength in every pass: reference = plain call from the main thread with "
+          "the sequential evaluator, again, then the sequential AND the parallel evaluator inside every pool of 1,2,3,4,7,8,16 threads "
+          "(alternating original / cloned configuration); digest additionally covers the final Diversity<M> states (normalised and maximal, bits), "
+          "StepsWithoutImprovement and MutationStrength; reuse — ONE configuration "
           "object run on problem A and then on problem B (different dimension/domain), a clone made after that use, a parallel run, each "
           "against a pristine configuration on B; user-rng — a user-supplied counting generator must be the generator in the final state, "
           "must have been drawn from, and must reproduce the Random::new(seed) run (sequential and parallel); adv-rng — a user generator "
@@ -62,6 +76,8 @@ CONFIG = dict(
         "rand_core 0.6.4 / rand_chacha 0.3.1 / rand 0.8.8 `SeedableRng::seed_from_u64` of ChaCha8/12/20 and StdRng is the REFERENCE the stream cases compare `Random` with (the harness links the same crate versions as /repo through Cargo.lock); only the counter backend's stream is computed by the model",
         "ChaCha12 (rand_chacha): 'different seeds give different streams' is an ASSUMPTION about the backend's seeding (hypothesis hinj of different_seeds_different_streams / children_pairwise_distinct; a theorem only for the counter backend) explored on 10^4 pairs",
         "problem.objective(&self, ..) is a pure function of the solution and the evaluators ignore the State they are handed (read off src/problems/evaluate.rs; not enforced by the types)",
+        "which components publish a computed value was read off /repo/src/components (diversity.rs: four measures; utils/improvement.rs; no step-size measure exists); a NEW measure component would have to be added to the mrun grammar by hand — the seq-in-pool runs of run-* / big-* / gen cover any component of a shipped template without that",
+        "measure-* K: the Lean `Float` operations (+, -, *, /, sqrt, abs) are IEEE-754 binary64 like Rust's; powi(2) is modelled as x*x; compared at relative 1e-9 only",
         "FNV-1a 64-bit digests of canonical state strings (a collision could hide a difference)",
         "the wrapper problem J<P> delegates every trait to the wrapped problem and only adds the delay (checked: unwrapped digest equals wrapped digest)",
         "the generator identity inside par_experiment jobs is observed through a log trigger at the first Logger execution of the run (the templates used have a Logger in their main loop)"],
@@ -107,7 +123,10 @@ CONFIG.update(
                 "the backend, trusted) with the code; the evaluate-* predicate compares the real parallel with the real sequential evaluator value by value, "
                 "so a size- or thread-count-dependent omission is a VIOLATION with the population size and pool size as input; the thread count is not a "
                 "parameter of the evaluation model except through the schedule, so the independence of what rayon does with it is explored, not proved; "
-                "for all digest cases (run-*, big-*, gen, reuse, user-rng, adv-rng) `agree` is vacuous and the verdict is the exploration predicate "
+                "the measure-* predicate compares the bits of the measured value between the main thread and pools of 1-16 threads, the mrun digests compare complete final states "
+                "and logs of configurations in which the measured value steers the mutation strength; rayon's adaptive splitter is not modelled beyond 'some split tree', so that a "
+                "given thread-dependent reduction really shows on the generated inputs is empirical (seeded C08-sub5-p2 and three siblings do); "
+                "for all digest cases (run-*, big-*, gen, mrun, reuse, user-rng, adv-rng) `agree` is vacuous and the verdict is the exploration predicate "
                 "'all digests equal'. The step language is a small model, not the component interpreter of /repo; it is not executed "
                 "against the code. rayon's real interleavings, the memory model and ChaCha's stream quality are outside the model. A remap "
                 "of the user's seed that is a bijection, or one confined to `Random::new`, or children built with another backend / with colliding seeds, is "
